@@ -4,10 +4,135 @@ NOTES = (
     "All checks are bounded-exhaustive explorations of the real py-pde code by the hand-written explorer "
     "in /verif/mc (no sampling); see DESIGN.md.  ./check <ID> --tier quick|thorough; violations are written "
     "to /verif/replays/<ID>/ and can be re-executed with --replay.  PYPDE_REPO=<dir> points the checks at "
-    "another checkout (used for scratch worktrees with seeded changes)."
+    "another checkout (used for scratch worktrees with seeded changes; their output goes to /tmp/verif_scratch_out). "
+    "Genuine defects found are either repaired by 'fix:' commits in /repo or listed in known_findings.json."
+)
+
+_MODES = (
+    "Trusted base: numpy/sympy, the small reference models in the check, and that numba compiles the explored Python "
+    "source faithfully (mode I runs kernels with NUMBA_DISABLE_JIT=1; a covering subset is re-run with real JIT)."
 )
 
 CHECKS = [
+    {
+        "property_id": "C01",
+        "category": "exploration",
+        "technique": "bounded-exhaustive enumeration of (grid, operator, option, backend) x all unit inputs vs a mechanically derived reference stencil; refinement study vs sympy continuum oracle",
+        "text": "(a) For every grid family/shape/periodicity in the alphabet, every registered operator incl. single-axis "
+        "derivatives and every documented option (method, central, conservative) on the numba and scipy backends the raw "
+        "operator is applied to EVERY unit input of the padded array (all admissible components, ghost and corner cells; all "
+        "pairs for gradient_squared) and compared entry-wise with the stencil obtained mechanically from the continuum operator "
+        "(sympy, Cartesian embedding, no hand-written curvilinear formula) by central/forward/backward differences, resp. the "
+        "finite-volume form for conservative spherical operators - this decides the operator for all inputs of those grids. "
+        "(b) Observed convergence order on smooth fields against the exact continuum value for every (system, hole, operator, "
+        "option), uniformly and at fixed distance from r=0.  Compiled kernels (JIT) are compared with the same reference.",
+        "note": "Grid sizes bounded (<= 6 cells per axis for (a), N<=64/128 for (b)); spectral operators, 9-point Laplacian, "
+        "jax/torch absent. D8 (conservative spherical tensor divergences near r=0) is a listed known finding. " + _MODES,
+    },
+    {
+        "property_id": "C02",
+        "category": "exploration",
+        "technique": "bounded-exhaustive enumeration of BC configurations; complete affine map valid->ghost cells by basis extraction vs independent model",
+        "text": "Every (grid with 1-3 axes, rank 0-2, non-periodic axis, side, BC type incl. all aliases, normal_* and *_expression "
+        "variants, value kind: 0 / scalar / tensor / tensor x per-face array / coordinate expression / coordinate+time expression, "
+        "Robin constant kind) is imposed through field.set_ghost_cells, BoundariesList.set_ghost_cells and the source of the compiled "
+        "setter on the zero field, EVERY unit basis vector and a generic field with sentinel-filled ghost cells; the complete padded "
+        "array is compared with an independent model of the defining identities (so the condition holds for all field contents, no "
+        "other cell is touched, normal-only conditions leave other components untouched).  All specification formats (strings, "
+        "dicts, wildcard, named sides, alias axis names, instances, legacy low/high and list formats, auto_periodic_*) and "
+        "periodic/anti-periodic axes are checked against the same model.",
+        "note": "Small grids (<= 4 cells per axis); values from fixed lattices; loud refusals (exceptions) are counted, not flagged. " + _MODES,
+    },
+    {
+        "property_id": "C03",
+        "category": "exploration",
+        "technique": "bounded-exhaustive route comparison on a covering BC design x basis enumeration; schedule independence via recorded read/write sets (Bernstein) + all loop permutations + enumerated thread counts",
+        "text": "For every (grid, operator, rotation of a covering design in which every (axis, side, BC class) occurs) all public "
+        "routes - field methods, make_operator on numba and scipy with/without out, compiled vs interpreted ghost-cell setter, "
+        "sparse Laplace matrix of the Poisson solvers - are compared with make_operator_no_bc-after-set_ghost_cells on the zero "
+        "field, every admissible unit field and a generic field (routes are affine; pairs for gradient_squared).  Schedules of "
+        "the parallel kernels: per-iteration read/write sets of every prange loop are recorded (prange replaced, arrays proxied) "
+        "and Bernstein's conditions checked, all permutations of the outer loop are executed for small shapes; real parallel "
+        "kernels run with 1..16 threads x chunk sizes and must be bit-identical and equal to the serial kernel.",
+        "note": "numba's native thread scheduler is not put under a controlled scheduler (independence argument + enumerated thread "
+        "counts instead); entries depending on ghost cells that normal-only BCs leave undefined are masked (determined by running "
+        "with different ghost fillers). " + _MODES,
+    },
+    {
+        "property_id": "C06",
+        "category": "exploration",
+        "technique": "bounded-exhaustive enumeration of (solver, backend, rate, dt, steps, t_start, state) against closed-form scheme recursions",
+        "text": "All (solver in euler/RK4/implicit/Crank-Nicolson/Adams-Bashforth, backend numpy/numba, real/complex/per-cell rate, dt, "
+        "steps, t_start, state kind) runs of du/dt = a u are compared with the exact amplification factors / AB2 recursion, reported "
+        "steps and logged stage times; a cubic-in-time forcing pins stage times and weights; the scipy solver; adaptive Euler/RKF over "
+        "(lambda, T, tolerance, initial dt, t_start incl. ranges crossing zero) for t_final == t_end exactly, error <= steps*tol and "
+        "backend agreement; really compiled steppers against interpreted ones.",
+        "note": "Fixed lattices of parameters; iterative schemes with |a dt| < 0.7 and tight convergence settings. " + _MODES,
+    },
+    {
+        "property_id": "C07",
+        "category": "exploration",
+        "technique": "bounded-exhaustive enumeration of (solver, backend, dt, t_start, range, tracker set) controller runs vs tracker-free run and the one-step map",
+        "text": "About 10^6 complete Controller runs: every (fixed-step solver, backend, dt, t_start, autonomous/time-dependent) x every "
+        "time range (whole numbers of steps and fractional) x every tracker set (none, 23 single interrupt schedules - constant, "
+        "fixed lists, logarithmic, geometric, non-commensurate -, all pairs/triples of reduced pools) is compared with the "
+        "tracker-free run (bit-identical for autonomous equations), with `steps` applications of the solver's own one-step map, and "
+        "checked for exact step/time accounting and an untouched initial state; compiled steppers on a reduced alphabet.",
+        "note": "dt/t_start/interval values from fixed lattices including classic floating-point edge cases; other values are not covered. " + _MODES,
+    },
+    {
+        "property_id": "C08",
+        "category": "fault_enumeration",
+        "technique": "exhaustive stop injection: every tracker x every call index x both stop exceptions (plus simultaneous/later second stops) per configuration",
+        "text": "For 9 stepper engines (fixed and adaptive, numpy/numba) x dt x t_start x ranges x 64 tracker sets the fault-free run is "
+        "checked against the schedule clauses (strictly increasing genuine simulation times, each scheduled time served exactly "
+        "once within dt/2 - exactly for adaptive steppers -, frame counts of a MemoryStorage tracker); then a StopIteration / "
+        "FinishedSimulation is injected at EVERY call of EVERY tracker (and at two trackers at once) and the run must equal the "
+        "fault-free prefix (all due trackers served, none later), end at the stop time with that state, report the reason and "
+        "finalise every tracker once.",
+        "note": "Linear test equation on 2 cells; scheduled times within 1e-9*dt of t_end are ambiguous. " + _MODES,
+    },
+    {
+        "property_id": "C09",
+        "category": "model_checking",
+        "technique": "explicit-state BFS over all non-decreasing query histories of the real interrupt objects with validated state merging",
+        "text": "BFS over all query histories (14 relative moves: on/just before/just after/far beyond scheduled times, repeats) up to "
+        "depth 7 (quick) / 8 (thorough) for ~60 hand-picked and 310 lattice parameter sets of Constant/Fixed/Geometric/"
+        "LogarithmicInterrupts (incl. parse_interrupt forms); every transition is checked for answer >= query, strict increase and "
+        "lattice membership against a reference model; merged states are validated by re-executing two witnesses from scratch.",
+        "note": "Bounded depth and parameter lattice; round-off tolerances derived from operand magnitudes. Trusted: the reference model.",
+    },
+    {
+        "property_id": "C12",
+        "category": "exploration",
+        "technique": "bounded-exhaustive enumeration of grid configurations x full point lattices against closed-form geometry",
+        "text": "1599 (quick) / 10698 (thorough) grid configurations (all classes, shapes incl. 1 cell, bounds from 1e-3 to 1e6, holes, "
+        "periodic flags) x a 14-value point lattice per axis in all combinations (single points and batches): cell centres, exact "
+        "cell volumes and their sum, integrals over all/selected axes, projections, mutually inverse coordinate transformations, "
+        "contains_point, get_random_point driven by an enumerating generator, normalize_point (idempotent, whole periods, "
+        "reflections), symmetric / period-invariant distances with at most half a period per periodic axis.",
+        "note": "Points within 1e-9 of a face are not decided for membership. Trusted: closed-form oracles in the check.",
+    },
+    {
+        "property_id": "C14",
+        "category": "exploration",
+        "technique": "bounded-exhaustive enumeration of grids/fields/collections x all save-restore routes",
+        "text": "Every grid class x parameter form x route (from_state, JSON, copy, copy.copy, deepcopy, pickle), every field class x "
+        "dtype x label x route, mixed-rank collections, FieldCollection.from_data with/without ghost cells on every grid class, and "
+        "the MemoryStorage field_attributes round trip; equality of class, bounds incl. inner radius, periodicity, volumes, labels, "
+        "dtype and data (bitwise).",
+        "note": "float32 collections through copy()/storage read-back yield float64 (documented automatic dtype): recorded as observation.",
+    },
+    {
+        "property_id": "C19",
+        "category": "exploration",
+        "technique": "bounded-exhaustive enumeration of coordinate systems x point lattices and of all unit component fields through every route that uses a component order",
+        "text": "Bases of all coordinate systems on point lattices (orthonormal, right-handed, equal to the normalised Jacobian and to "
+        "a finite-difference Jacobian); for every curvilinear grid every unit component field e_i / e_i e_j is pushed through "
+        "access by name, from_expression position, differential operators, dot/outer products and conversion to Cartesian grids "
+        "and must denote the same physical direction; affine and axial fields; commutation with divergence/gradient on refinement pairs.",
+        "note": "D7 (cylindrical conversion to Cartesian uses (r,phi,z)) is a listed known finding pinned by an existing test. " + _MODES,
+    },
     {
         "property_id": "C20",
         "category": "model_checking",
